@@ -202,6 +202,7 @@ pub fn evaluate(spec: &Spec, completed: bool) -> Vec<Violation> {
             "c16_pause" => control::c16_pause(&mut cx),
             "c17_shutdown" => control::c17_shutdown(&mut cx),
             "c14_reload" => control::c14_reload(&mut cx),
+            "c18_stats" => control::c18_stats(&mut cx),
             "c07_bans" => routing::c07_bans(&mut cx),
             "c07_expiry" => routing::c07_expiry(&mut cx),
             other => {
